@@ -3,6 +3,127 @@ package main
 // providers.go — property-specific obligations that are not plain function contracts
 // (table lemmas K5, structural frame/ownership K3, order-independence K4, ghost lemmas K6).
 
+import (
+	"fmt"
+	"sort"
+	"strings"
+)
+
 func propertyProviders(e *Engine, P string, tier string) []*Job {
-	return nil
+	var jobs []*Job
+	jobs = append(jobs, tableJobs(e, P)...)
+	return jobs
+}
+
+func structJob(name, kind string, ok bool, detail, pos string) *Job {
+	st := "proved"
+	if !ok {
+		st = "failed"
+	}
+	return &Job{Struct: true, O: &Obligation{Name: name, Kind: kind, Status: st, Detail: detail, Pos: pos, Solver: "structural"}}
+}
+
+// tableJobs: K5 — the rows of a rule table, extracted from the SSA of the initialisers on this run,
+// equal the rows the contract file demands; the patterns of one table are pairwise exclusive.
+func tableJobs(e *Engine, P string) []*Job {
+	var jobs []*Job
+	for _, ts := range e.Specs.Tables {
+		if !hasProp(ts.Props, P) {
+			continue
+		}
+		var ti *TableInfo
+		for _, t := range e.tables {
+			if t.Global.Pkg.Pkg.Name() == ts.Pkg && t.Global.Name() == ts.Name {
+				ti = t
+			}
+		}
+		base := fmt.Sprintf("%s.table(%s)", ts.Pkg, ts.Name)
+		if ti == nil {
+			jobs = append(jobs, structJob(base+"/extract", "table", false, "table not found / not extractable from init", ts.Where))
+			continue
+		}
+		jobs = append(jobs, structJob(base+"/closed", "table", !ti.Open && ti.Frozen, "every update has a constant key, in straight-line init code, and no function outside init writes a map of this type", ts.Where))
+		got := map[string]string{}
+		for _, r := range ti.Rows {
+			got[r.Key] = strings.TrimPrefix(r.Desc, ts.Pkg+".")
+		}
+		want := map[string]string{}
+		for _, r := range ts.Rows {
+			want[r[0]] = r[1]
+			g, ok := got[r[0]]
+			jobs = append(jobs, structJob(fmt.Sprintf("%s/row[%s]", base, r[0]), "table", ok && g == r[1], fmt.Sprintf("want %s, extracted %q", r[1], g), ts.Where))
+		}
+		if ts.Exact {
+			var extra []string
+			for k := range got {
+				if _, ok := want[k]; !ok {
+					extra = append(extra, k)
+				}
+			}
+			sort.Strings(extra)
+			jobs = append(jobs, structJob(base+"/exact", "table", len(extra) == 0, "unexpected rows: "+strings.Join(extra, ", "), ts.Where))
+		}
+		// exclusivity lemma (SMT): no path matches two different patterns of the table
+		var keys []string
+		for _, r := range ti.Rows {
+			keys = append(keys, r.Key)
+		}
+		sort.Strings(keys)
+		jobs = append(jobs, exclusivityJob(base, keys, ts.Where))
+	}
+	return jobs
+}
+
+// exclusivityJob builds one SMT query: exists a path matched by two different patterns?
+func exclusivityJob(base string, keys []string, where string) *Job {
+	o := &Obligation{Name: base + "/patterns-pairwise-exclusive", Kind: "table-lemma", Pos: where, Detail: fmt.Sprintf("%d patterns, %d pairs", len(keys), len(keys)*(len(keys)-1)/2)}
+	script := func() string {
+		var b strings.Builder
+		b.WriteString("(declare-sort Str 0)\n(declare-fun cnt () Int)\n(declare-fun part (Int) Str)\n")
+		lits := map[string]string{}
+		lit := func(s string) string {
+			if n, ok := lits[s]; ok {
+				return n
+			}
+			n := fmt.Sprintf("l%d", len(lits))
+			lits[s] = n
+			return n
+		}
+		match := func(pat string) string {
+			parts := strings.Split(pat, ".")
+			t := fmt.Sprintf("(and (= cnt %d)", len(parts))
+			for i, p := range parts {
+				if p == "*" {
+					continue
+				}
+				t += fmt.Sprintf(" (= (part %d) %s)", i, lit(p))
+			}
+			return t + ")"
+		}
+		var pairs []string
+		for i := 0; i < len(keys); i++ {
+			for j := i + 1; j < len(keys); j++ {
+				pairs = append(pairs, fmt.Sprintf("(and %s %s)", match(keys[i]), match(keys[j])))
+			}
+		}
+		var names []string
+		for _, n := range lits {
+			names = append(names, n)
+		}
+		sort.Strings(names)
+		for _, n := range names {
+			fmt.Fprintf(&b, "(declare-const %s Str)\n", n)
+		}
+		if len(names) > 1 {
+			b.WriteString("(assert (distinct " + strings.Join(names, " ") + "))\n")
+		}
+		if len(pairs) == 0 {
+			b.WriteString("(assert false)\n")
+		} else {
+			b.WriteString("(assert (or " + strings.Join(pairs, "\n ") + "))\n")
+		}
+		b.WriteString("(check-sat)\n")
+		return b.String()
+	}
+	return &Job{O: o, Script: script}
 }
